@@ -1,5 +1,6 @@
 #!/usr/bin/env python
 
+import os
 import random
 from copy import copy
 
@@ -113,6 +114,11 @@ def Shuffle(F,
         clauses_mapping = sorted(enumerate(clauses_permutation), key=lambda x: x[1])
 
 
+    # verification hook (off unless CNFGEN_VERIF=1): remember the witness used
+    _verif = os.environ.get('CNFGEN_VERIF') == '1'
+    if _verif:
+        clauses_mapping = list(clauses_mapping)
+
     # precompute literal mapping
     substitution = [None] * (2 * N + 1)
     for i in range(1, N+1):
@@ -123,5 +129,16 @@ def Shuffle(F,
     for (old, new) in clauses_mapping:
         assert new == out.number_of_clauses()
         out.add_clause(substitution[lit] for lit in F[old])
+
+    if _verif:
+        # flips, variable permutation and (old position, new position) pairs
+        out._verif_witness = ([int(x) for x in polarity_flips],
+                              [int(x) for x in variables_permutation],
+                              [(int(o), int(n)) for (o, n) in clauses_mapping])
+        if os.environ.get('CNFGEN_VERIF_TRACE'):
+            import json
+            with open(os.environ['CNFGEN_VERIF_TRACE'], 'a') as _f:
+                _f.write(json.dumps({'event': 'shuffle',
+                                     'witness': out._verif_witness}) + '\n')
 
     return out
